@@ -22,7 +22,7 @@ PLANS["C01"] = {
             "of >= 2 taps is executed on at least one axis; distinct = distinct case descriptor",
     "assumptions": ["the f64 reference model in harness/src/refmodel.rs states the ideal filter of the property",
                     "NEON/WASM kernels are not executable on this host"],
-    "quick": [step("rel", "firv-core", 24000), step("asan", "firv-core", 2400)],
+    "quick": [step("rel", "firv-core", 300000), step("asan", "firv-core", 30000), step("dbg", "firv-core", 30000)],
     "thorough": [step("rel", "firv-core", 1000000, timeout=7200), step("asan", "firv-core", 60000, timeout=7200),
                  step("dbg", "firv-core", 60000, timeout=7200)],
 }
@@ -30,9 +30,117 @@ FLOORS["C01"] = {
     "quick": [
         ("all 8 residues of kernel length mod 8 observed by the pass hook", lambda o: len(o["sets"]["observed_window_len_mod8"]) == 8),
         (">= 6 distinct u8 precisions and >= 8 distinct u16 precisions observed", lambda o: len(o["sets"]["precisions_u8"]) >= 6 and len(o["sets"]["precisions_u16"]) >= 8),
-        (">= 5000 two-pass cases", lambda o: o["counters"]["two_pass_cases"] >= 5000),
+        (">= 50000 two-pass cases", lambda o: o["counters"]["two_pass_cases"] >= 50000),
         ("worst error/bound ratio >= 0.9 for every component kind (the bound is attained, it has no slack)",
          lambda o: all(o["maxima"]["worst_error_over_bound_" + k] >= 0.9 for k in ("u8", "u16", "i32", "f32"))),
     ],
 }
 FLOORS["C01"]["thorough"] = FLOORS["C01"]["quick"]
+
+CONV_ASSUME = ["NEON/WASM kernels are not executable on this host", "back-ends are selected with the unsafe set_cpu_extensions on a host that supports SSE4.1 and AVX2"]
+
+PLANS["C02"] = {
+    "rule": "resize: stratified + random cases (13 pixel types, built-in and custom filters, alpha on/off, crops) executed on "
+            "None/Sse4_1/Avx2 and compared component by component (integers bit-equal, U16x2/U16x4 alpha-on colours +-1, floats "
+            "2 ulp of the summed magnitude); cases whose H1 event shows a window with sum|w| >= 4 are skipped and counted; "
+            "muldiv: alpha multiply/divide of rows of every length 1..70 and random lengths, in-place and two-image; "
+            "non-trivial = at least one convolution pass ran (resize) / any row (muldiv); distinct = distinct descriptor",
+    "assumptions": CONV_ASSUME,
+    "quick": [step("rel", "firv-core", 160000), step("rel", "firv-core", 60000, sub="muldiv")],
+    "thorough": [step("rel", "firv-core", 3000000, timeout=7200), step("rel", "firv-core", 1000000, sub="muldiv", timeout=7200),
+                 step("asan", "firv-core", 100000, timeout=7200)],
+}
+
+
+def _c02_floor(o):
+    need = []
+    for pt in ["U8", "U8x2", "U8x3", "U8x4", "U16", "U16x2", "U16x3", "U16x4", "I32", "F32", "F32x2", "F32x3", "F32x4"]:
+        for d in "hv":
+            if len(o["sets"].get("%s_%s_len_mod8" % (pt, d), [])) < 8 or len(o["sets"].get("%s_%s_rows_mod4" % (pt, d), [])) < 4:
+                need.append(pt + d)
+    return not need
+
+
+FLOORS["C02"] = {"quick": [
+    ("every pixel type x pass direction saw all 8 classes of window length mod 8 and all 4 classes of rows mod 4 (H1 events)", _c02_floor),
+    (">= 6 distinct u8 precisions and >= 10 distinct u16 precisions (H1 events)", lambda o: len(o["sets"]["precisions_u8"]) >= 6 and len(o["sets"]["precisions_u16"]) >= 10),
+    ("every alpha pixel type saw all 16 classes of row length mod 16 in the muldiv step", lambda o: all(len(o["sets"]["%s_row_len_mod16" % p]) == 16 for p in ["U8x2", "U8x4", "U16x2", "U16x4", "F32x2", "F32x4"])),
+]}
+FLOORS["C02"]["thorough"] = FLOORS["C02"]["quick"]
+
+PLANS["C07"] = {
+    "rule": "random resize cases on the six alpha pixel types (transparent stripes, islands, borders, single pixels, all-zero, low alpha) "
+            "with alpha handling on; each run three times per back-end: source A, source B = A with other colours under alpha = 0, and A "
+            "with alpha handling off; relations (i) A==B results, (ii) zero alpha => zero colour, (iii) opaque source == alpha-off, "
+            "(iv) alpha channel == plain resampling, (v) non-alpha types unaffected; non-trivial = source has both transparent and "
+            "non-transparent pixels; geometries where dst size == integer crop (C12: exact copy) are excluded and counted",
+    "assumptions": CONV_ASSUME + ["colours under zero alpha are finite (NaN*0 is NaN in any implementation)"],
+    "quick": [step("rel", "firv-core", 120000)],
+    "thorough": [step("rel", "firv-core", 3000000, timeout=7200), step("asan", "firv-core", 100000, timeout=7200)],
+}
+FLOORS["C07"] = {"quick": [
+    (">= 10000 cases with partial transparency, >= 1000 opaque cases, >= 10^5 zero-alpha destination pixels",
+     lambda o: o["counters"]["cases_with_partial_transparency"] >= 10000 and o["counters"]["opaque_cases"] >= 1000 and o["counters"]["zero_alpha_dst_pixels"] >= 100000),
+]}
+FLOORS["C07"]["thorough"] = FLOORS["C07"]["quick"]
+
+PLANS["C10"] = {
+    "rule": "constant images (all 256 values for 8-bit in turn; extremes, mid, random for wider types; alpha at maximum when alpha "
+            "handling is on) resized with random geometry, every fourth case a strip with an extreme scale (kernel lengths up to "
+            "65 000 explored, verdict only for <= 8192 taps); every destination component must equal the constant (floats: 1 ulp); "
+            "non-trivial = kernel of >= 2 taps inside the verdict domain",
+    "assumptions": CONV_ASSUME,
+    "quick": [step("rel", "firv-core", 160000)],
+    "thorough": [step("rel", "firv-core", 4000000, timeout=7200)],
+}
+FLOORS["C10"] = {"quick": [
+    ("all 256 8-bit values used", lambda o: len(o["sets"]["u8_values"]) == 256),
+    ("kernel lengths judged up to >= 4096 taps, every power-of-two class 1..4096 seen",
+     lambda o: o["maxima"]["kernel_len_max_judged"] >= 4096 and len(o["sets"]["kernel_len_log2"]) >= 13),
+]}
+FLOORS["C10"]["thorough"] = FLOORS["C10"]["quick"]
+
+PLANS["C11"] = {
+    "rule": "identity-tagged sources (neighbouring pixels always differ) resized with Nearest: random sizes, strips, valid crops of every "
+            "kind, every eighth case a sub-pixel crop flush against the right/bottom edge, 1x1 sources, alpha handling on for alpha types; "
+            "each destination pixel must be bit-identical to the source pixel under its centre (either neighbour when the centre is within "
+            "4(n+2) ulp of an integer); non-trivial = destination size differs from the crop size",
+    "assumptions": CONV_ASSUME,
+    "quick": [step("rel", "firv-core", 160000), step("asan", "firv-core", 16000), step("miri", "firv-core", 320, shards=16, timeout=3000)],
+    "thorough": [step("rel", "firv-core", 4000000, timeout=7200), step("asan", "firv-core", 400000, timeout=7200),
+                 step("miri", "firv-core", 3200, shards=16, timeout=14000)],
+}
+FLOORS["C11"] = {"quick": [
+    (">= 5000 sub-pixel edge-flush cases", lambda o: o["counters"]["subpixel_edge_flush_cases"] >= 5000),
+    (">= 10^7 pixels checked", lambda o: o["counters"]["pixels_checked"] >= 10 ** 7),
+]}
+FLOORS["C11"]["thorough"] = FLOORS["C11"]["quick"]
+
+PLANS["C12"] = {
+    "rule": "four modes in turn: same size as an integer crop (every algorithm incl. Nearest, alpha on/off) must be a bit-exact copy; rows "
+            "match / columns match: each row (column) of the result must equal the resize of that row (column) alone; SuperSampling whose "
+            "intermediate has the destination size must equal the nearest-neighbour picks (alpha channel only when alpha handling is on); "
+            "every case is non-trivial; distinct = distinct descriptor",
+    "assumptions": CONV_ASSUME,
+    "quick": [step("rel", "firv-core", 120000)],
+    "thorough": [step("rel", "firv-core", 3000000, timeout=7200)],
+}
+FLOORS["C12"] = {"quick": [
+    (">= 10000 cases of each of the four modes", lambda o: all(o["counters"][k] >= 10000 for k in ("same_size", "rows_match", "columns_match", "supersampling_identity"))),
+    ("all four algorithm kinds seen", lambda o: all(any(a.startswith(k) for a in o["sets"]["algorithms"]) for k in ("Nearest", "Conv", "Interp", "Super"))),
+]}
+FLOORS["C12"]["thorough"] = FLOORS["C12"]["quick"]
+
+PLANS["C18"] = {
+    "rule": "random images A and B = A + non-negative increments (saturating), value ranges anywhere in the component range, resized "
+            "with Box/Bilinear/Hamming/Gaussian x Convolution/Interpolation/SuperSampling, alpha off, kernel lengths <= 8192; every "
+            "destination component must lie in the source channel's [min,max] and resize(A) <= resize(B) componentwise (floats: 1 ulp); "
+            "non-trivial = kernel of >= 2 taps",
+    "assumptions": CONV_ASSUME,
+    "quick": [step("rel", "firv-core", 120000)],
+    "thorough": [step("rel", "firv-core", 3000000, timeout=7200)],
+}
+FLOORS["C18"] = {"quick": [
+    (">= 10^8 components checked, kernels up to >= 4096 taps", lambda o: o["counters"]["components_checked"] >= 10 ** 8 and o["maxima"]["kernel_len_max"] >= 4096),
+]}
+FLOORS["C18"]["thorough"] = FLOORS["C18"]["quick"]
